@@ -210,6 +210,7 @@ pub fn run(args: &Args) {
             0 | 1 | 2 => runtime_case(&mut rep, &ev, &strict, &mut rng, i),
             3 => parse_case(&mut rep, &mut rng),
             _ if i % 10 == 9 => never_failing_case(&mut rep, &mut rng),
+            _ if i % 20 == 4 => value_that_is_a_reference_case(&mut rep, &mut rng),
             _ => nonfinite_case(&mut rep, &mut rng),
         }
     }
@@ -347,7 +348,13 @@ fn parse_case(rep: &mut Report, rng: &mut Rng) {
                 refimpl::sentence::surrogate_case(rng)
             }
         }
-        4 => format!("{}{}", prefix(rng), refimpl::sentence::lookalike_case(rng)),
+        4 => {
+            if rng.chance(1, 3) {
+                refimpl::sentence::truncation_twin(&s, rng).unwrap_or(s)
+            } else {
+                format!("{}{}", prefix(rng), refimpl::sentence::lookalike_case(rng))
+            }
+        }
         _ => format!("{}\n{}", s, char_soup(rng, 6)),
     };
     rep.evaluations += 1;
@@ -378,6 +385,58 @@ fn parse_case(rep: &mut Report, rng: &mut Rng) {
             }
         }
         Err(p) => rep.violation(&format!("C12/panic/{}", panic_site(&p)), json!({"expression": candidate, "panic": p})),
+    }
+}
+
+/// Values that are expression references (obtainable as data: `not_null(&a)`, `to_array(&a)`) handed, one
+/// element at a time, to calls that do not accept them: the invalid-type error belongs to the call that
+/// rejected the element — its parenthesis — not to the `map` / by-function / projection that handed it over.
+/// Each text names the rejecting function; the expected offset is the `(` that follows its last occurrence.
+fn value_that_is_a_reference_case(rep: &mut Report, rng: &mut Rng) {
+    const CASES: [(&str, &str); 14] = [
+        ("map(&to_string(@), to_array(&a))", "to_string"),
+        ("map(&abs(@), to_array(&a))", "abs"),
+        ("map(&length(@), [not_null(&a), not_null(&b)])", "length"),
+        ("to_array(&a)[*].to_string(@)", "to_string"),
+        ("to_array(&a)[0] | length(@)", "length"),
+        ("not_null(&a) | to_string(@)", "to_string"),
+        ("not_null(`null`, &a) | abs(@)", "abs"),
+        ("join('', to_array(&a))", "join"),
+        ("sort(to_array(&a))", "sort"),
+        ("map(&keys(@), [`{}`, not_null(&a)])", "keys"),
+        ("[not_null(&a)][?to_string(@)]", "to_string"),
+        ("map(&[@, to_string(@)], to_array(&a))", "to_string"),
+        ("map(&to_string(@), [`1`, not_null(&a)])", "to_string"),
+        ("to_array(&a)[*].[abs(@)]", "abs"),
+    ];
+    let (core, fname) = CASES[rng.below(CASES.len())];
+    // (a raw-string prefix before `||` is truthy and would skip the core: pipe into it instead; the other `||`
+    // prefixes are falsy — a missing member, a negated string — and hand the document on to the core)
+    let pre = prefix(rng);
+    let pre = match pre.trim_end().strip_suffix("||") {
+        Some(p) if p.trim_start().starts_with('\'') => format!("{}| ", p),
+        _ => pre,
+    };
+    let text = format!("{}{}", pre, core);
+    let text = if rng.chance(1, 2) { respace(&text, rng) } else { text };
+    rep.evaluations += 1;
+    let got = guarded(|| jmespath::compile(&text).and_then(|e| e.search(rcvar_of(&json!({"a": 1})))));
+    let at = text.rfind(&format!("{}", fname)).and_then(|k| text[k..].find('(').map(|d| k + d));
+    match (got, at) {
+        (Ok(Err(e)), Some(at)) => {
+            if err_class(&e) != "type" {
+                rep.violation(&format!("C12/wrong-runtime-error-kind/{}-for-type", err_class(&e)), json!({"expression": text, "error": err_json(&e), "what": "an expression reference handed to a call that does not accept one"}));
+            } else if e.offset != at {
+                rep.violation("C12/error-does-not-point-at-the-failing-call", json!({"expression": text, "failing_function": fname, "expected_offset": at, "reported_offset": e.offset, "what": "an expression reference handed to a call that does not accept one"}));
+            } else {
+                rep.count("located/reference-valued-element");
+                rep.nontrivial(refimpl::rng::fnv(text.as_bytes()));
+            }
+            check_coordinates(rep, &e, &text, "runtime");
+        }
+        (Ok(Ok(v)), _) => rep.violation("C12/failing-expression-succeeded", json!({"expression": text, "got": v.to_string()})),
+        (Err(p), _) => rep.violation(&format!("C12/panic/{}", panic_site(&p)), json!({"expression": text, "panic": p})),
+        (_, None) => rep.harness_error(format!("no call of {} in {:?}", fname, text)),
     }
 }
 
